@@ -412,6 +412,12 @@ fn p12_body<const N0: usize, const K: usize, const ML: usize>() {
     assert!(!tp.stopped());
     assert!(tp.is_accepting_cache.is_none() && tp.ff_tokens_cache.is_none());
     assert!(tp.had_rollback);
+    // representation invariant of the end-of-sequence bookkeeping: it only ever names tokens that are still there
+    let mut j = 0;
+    while j < tp.bare_eos_idx.len() {
+        assert!(tp.bare_eos_idx[j] < tp.llm_tokens.len());
+        j += 1;
+    }
     kani::cover!(eos_seen && stopped_before);
     kani::cover!(eos_with_bytes);
     kani::cover!(!eos_seen && stopped_before);
@@ -550,6 +556,38 @@ fn p18_eos_not_accepting() {
     }
     kani::cover!(r.is_ok());
     kani::cover!(r.is_err());
+}
+
+// while grammar-forced text is pending (the parser ran ahead over forced bytes during a mask / fast-forward query) the state is
+// NOT accepting for the caller, whatever the parser says about its own position: end-of-sequence is not taken as the end, the
+// stop check does not stop, and the accepting flag is false
+#[kani::proof]
+#[kani::unwind(9)]
+fn p18_pending_forced_text_is_not_accepting() {
+    let mut tp = any_state::<1>();
+    let fb: u8 = kani::any();
+    tp.parser.forced.push(fb);
+    tp.is_accepting_cache = None;
+    let which: u8 = kani::any();
+    if which == 0 {
+        assert!(!tp.is_accepting());
+    } else if which == 1 {
+        let n0 = tp.llm_tokens.len();
+        let r = tp.consume_token(EOS);
+        if r.is_ok() {
+            // it went to the parser as bytes (the grammar names the token), it did not end the sequence
+            assert!(tp.parser.apply_calls == 1);
+            assert!(tp.llm_tokens.len() == n0 + 1);
+        } else {
+            assert!(tp.stopped() && !tp.stop_reason.is_ok());
+        }
+    } else {
+        kani::assume(tp.parser.can_advance_at[tp.parser.applied.len()]);
+        let r = tp.check_stop();
+        assert!(r == Ok(false) && !tp.stopped());
+    }
+    kani::cover!(which == 1 && tp.parser.accepting_at[tp.parser.applied.len()]);
+    kani::cover!(which == 0 && tp.parser.accepting_at[tp.parser.applied.len()]);
 }
 
 // the mask: end-of-sequence is allowed whenever the state is accepting; an empty mask is never returned (it is a stop with
